@@ -123,6 +123,16 @@ func (f *Flow) withAssumptions(facts Facts) hasFn {
 
 // evalBool: three-valued evaluation of a boolean term under a fact set: 1 true, -1 false, 0 unknown.
 func evalBool(t *Term, facts hasFn) int {
+	if t.Op == "and" || t.Op == "or" {
+		// the compound itself may be a known fact (e.g. the negation of a conjunction)
+		whole := &Atom{Pred: "truth", Args: []*Term{t}}
+		if facts(whole) {
+			return 1
+		}
+		if facts(whole.Negate()) {
+			return -1
+		}
+	}
 	switch t.Op {
 	case "const":
 		if t.Name == "true" {
